@@ -282,8 +282,8 @@ def encode(case):
 def decode(out, case):
     q = Reader(out)
     tag = q.int()
-    if tag in (0, 1):
-        return dict(events=q.list(c3.dec_event), escaped=tag == 1)
+    if tag in (0, 1, 2):
+        return dict(events=q.list(c3.dec_event), escaped=tag != 0)
     return dict(model_tag=tag)
 
 
